@@ -103,7 +103,21 @@ def ini_doc(rng, idx, outdir):
                 sub = gen_items(rng.randint(0, 4), depth + 1)
                 # the directive's own line end terminates the last included line, so a side file may lack a final newline
                 side_files[fname] = '\n'.join(sub) + ('\n' if (rng.random() < 0.5 or not sub) else '')
-                lines.append('@INCLUDE ' + rng.choice(['', ' ']) + fname + rng.choice(['', ' ', '\t']))
+                rest = rng.choice(['', ' ']) + fname + rng.choice(['', ' ', '\t'])
+                q = rng.random()
+                if q < 0.15:
+                    # the same directive text inside a comment is not a directive (only a directive at line start is)
+                    lines.append('# defaults: @INCLUDE ' + rest)
+                lines.append('@INCLUDE ' + rest)
+                if 0.15 <= q < 0.30:
+                    lines.append(rng.choice(['#', ' # ']) + 'see @INCLUDE ' + rest)
+                elif 0.30 <= q < 0.45 and rest.endswith(fname):
+                    # a second side file whose name extends the first one's: the first directive's text is a prefix of this line
+                    fname2 = fname + 'b'
+                    sub2 = gen_items(rng.randint(1, 3), depth + 1)
+                    side_files[fname2] = '\n'.join(sub2) + '\n'
+                    lines.append('@INCLUDE ' + rest + 'b')
+                stats['include_lookalikes'] = stats.get('include_lookalikes', 0) + (1 if q < 0.45 else 0)
             else:
                 # entry
                 known = local.get(state['section'], [])
